@@ -68,6 +68,7 @@ def pairing(ctx: Ctx, cls, meth, attrs, label):
 
 def run(ctx: Ctx):
     normalised_sites(ctx)
+    act_evaluate_agree(ctx)
     ds = ctx.repo.get_class(DEC, "DecodingStrategy")
     bs = ctx.repo.get_class(DEC, "BeamSearch")
     it = pairing(ctx, ds, "step", ("actions", "logprobs"), "DecodingStrategy.step")
@@ -357,6 +358,28 @@ def normalised_sites(ctx: Ctx):
                    "log-likelihood are not log-probabilities", construct=f"{cls or path.split('/')[-2]}.{meth}:decode_logprobs:normalised")
     if n_sites < 4:
         raise AnalysisError(f"only {n_sites} decode_logprobs sites analysed (floor 4)")
+
+
+def act_evaluate_agree(ctx: Ctx):
+    """C11.g stepwise PPO (L2DPolicy4PPO): the log-probability stored when an action is taken (`act`) and the one recomputed for
+    the same state in the update (`evaluate`) come from process_logits with the same options, so the ratio starts at one."""
+    path = "rl4co/models/zoo/l2d/policy.py"
+    cls = ctx.repo.get_class(path, "L2DPolicy4PPO")
+    opts = {}
+    for m in ("act", "evaluate"):
+        fi = cls.methods.get(m)
+        if fi is None:
+            raise AnalysisError(f"L2DPolicy4PPO.{m} not found")
+        ctx.fn(fi)
+        calls = [n for n in ast.walk(fi.node) if isinstance(n, ast.Call) and (getattr(n.func, "id", "") == "process_logits" or getattr(n.func, "attr", "") == "process_logits")]
+        if len(calls) != 1:
+            raise AnalysisError(f"L2DPolicy4PPO.{m}: expected one process_logits call, found {len(calls)}")
+        c = calls[0]
+        opts[m] = {k.arg: ast.unparse(k.value) for k in c.keywords if k.arg is not None}
+        opts[m].update({f"#{i}": "..." for i, _ in enumerate(c.args)})
+    same = opts["act"] == opts["evaluate"]
+    ctx.ob("C11.g", "L2DPolicy4PPO:act-and-evaluate-same-distribution", same, cls.methods["act"].loc,
+           f"process_logits options: act {opts['act']} / evaluate {opts['evaluate']}", construct="L2DPolicy4PPO:act-evaluate-options")
 
 
 def run_thorough(ctx: Ctx):
